@@ -74,16 +74,18 @@ CUBES = so3.cube_rotations()
 
 
 def plan(tier):
+    # floors of the call monitors (rotate_cube, window_indices, coord_unchanged) are set from what the DRIVER's own direct calls produce
+    # (VERIF_BYPASS_INTERNAL=1: calls made from inside cryocat ignored), stated at 1.6x of 0.8x that count because core halves them
     env = {"MALLOC_PERTURB_": "190"}      # malloc'ed (not calloc'ed) memory is filled with 0x41 bytes: float64 2.26e6, float32 12.08
     if tier == "quick":
         return dict(n_cases=18 * 14, shards=2, classes=CLASSES, timeout_s=600, env=env,
-                    min_evals={"rotate_cube": 400, "rotate_analytic": 40, "rotate_centroid": 40, "rotate_inverse": 40,
-                               "window_indices": 400, "extract_window": 150, "extract_window_reused": 70, "coord_unchanged": 200, "place_cube": 45, "place_random": 12, "place_centroid": 15,
+                    min_evals={"rotate_cube": 1600, "rotate_analytic": 40, "rotate_centroid": 40, "rotate_inverse": 40,
+                               "window_indices": 1250, "extract_window": 150, "extract_window_reused": 70, "coord_unchanged": 1400, "place_cube": 45, "place_random": 12, "place_centroid": 15,
                                "sym_mean": 40, "sym_invariant_exact": 12, "sym_analytic": 30, "sym_invariant": 30, "sym_total": 30,
                                "link_c05": 40})
     return dict(n_cases=18 * 300, shards=16, classes=CLASSES, timeout_s=3000, env=env,
-                min_evals={"rotate_cube": 11000, "rotate_analytic": 800, "rotate_centroid": 800, "rotate_inverse": 800,
-                           "window_indices": 10000, "extract_window": 3500, "extract_window_reused": 1500, "coord_unchanged": 5000, "place_cube": 800, "place_random": 270, "place_centroid": 500,
+                min_evals={"rotate_cube": 23000, "rotate_analytic": 800, "rotate_centroid": 800, "rotate_inverse": 800,
+                           "window_indices": 28000, "extract_window": 3500, "extract_window_reused": 1500, "coord_unchanged": 32000, "place_cube": 800, "place_random": 270, "place_centroid": 500,
                            "sym_mean": 800, "sym_invariant_exact": 200, "sym_analytic": 500, "sym_invariant": 500, "sym_total": 500,
                            "link_c05": 700})
 
@@ -866,6 +868,14 @@ def run_blob(ctx, case):
                    "calls": [case["style"], case["inv_style"]], "max_abs_diff_over_peak": float(d.max() / peak), "voxel": list(map(int, j))})
 
 
+def direct_indices(ctx, coord, volume_shape, sub_shape, coord_as="array"):
+    """get_start_end_indices is a public function of its own: the driver calls it DIRECTLY (fresh copies, documented keyword
+    names) for the same in-quantifier windows, so that the window_indices / coord_unchanged monitors are reached whatever
+    cryoCAT's internal call structure is (extract_subvolume / place_object / crop need not route through the public name)."""
+    ctx.call("get_start_end_indices", ctx.cmap.get_start_end_indices, coord=_as(coord_as, [float(c) for c in coord]),
+             volume_shape=tuple(int(v) for v in volume_shape), subvolume_shape=tuple(int(v) for v in sub_shape))
+
+
 def run_extract(ctx, case):
     cm = ctx.cmap
     vol = case["vol"]
@@ -873,6 +883,7 @@ def run_extract(ctx, case):
         coord = _as(w["coord_as"], w["coord"])
         shp = _as(w["shape_as"], w["N"])
         ctx.call("extract_subvolume", cm.extract_subvolume, vol, coord, shp)              # judged by extract_window + window_indices
+        direct_indices(ctx, w["coord"], vol.shape, w["N"], w["coord_as"])
         if w["enforce_too"]:
             try:
                 cm.extract_subvolume(vol, np.array(w["coord"]), tuple(w["N"]), enforce_shape=True)    # other mode: counted, not judged
@@ -898,6 +909,7 @@ def run_extract_reuse(ctx, case):
         ok, res = ctx.call("extract_subvolume", cm.extract_subvolume, vol, centre, tuple(q["N"]))
         if not ok:
             return
+        direct_indices(ctx, original, vol.shape, q["N"])
         kind, w = judge_window(vol, original, q["N"], res)
         if w is not None:
             w.update({"call_number": k + 1, "same_centre_array_reused": True, "centre_array_now": centre.tolist(), "original_centre": original.tolist()})
@@ -944,6 +956,17 @@ def run_place(ctx, case):
         return
     obj, kw = place_args(case)
     ok, out = call_place(ctx, m, obj, m, **kw)              # binary templates + cube poses: judged by place_cube
+    P0 = gens.positions(m.df) - 1.0
+    for i in range(len(P0)):                                # the window of every particle, asked for directly as well
+        direct_indices(ctx, P0[i], case["V"], case["templ"][i if case["per_particle"] else 0].shape)
+    if not case["smooth"]:
+        # the rotate call place_object makes per particle (rotation=, transpose_rotation=True), made DIRECTLY by the driver too, so that
+        # rotate_cube judges this call form on the templates whatever function place_object uses internally to rotate them
+        okr, rots = ctx.call("get_rotations", m.get_rotations)
+        if okr:
+            for i in range(len(P0)):
+                T = case["templ"][i if case["per_particle"] else 0]
+                ctx.call("rotate", ctx.cmap.rotate, np.array(T, copy=True), rotation=rots[i], transpose_rotation=True)
     if not ok or not case["smooth"]:
         return
     df = m.df
